@@ -191,7 +191,7 @@ func TestC09(t *testing.T) {
 	rapid.Check(t, func(t *rapid.T) {
 		cfg := hist.DrawCfg(t, 0, nil)
 		cfg.Encryption = rapid.SampledFrom([]string{"age", "pgp"}).Draw(t, "encryption!")
-		g := hist.NewGen(t, c09Weights, c09Universe, 4, cfg.RecordSize)
+		g := hist.NewGen(t, c09Weights, c09Universe, 4, cfg.RecordSize).WithSuffixNames(t, cfg)
 		g.Markers = true
 		g.Avoid = f33Avoid(cfg, avoidFor("C09"))
 		if guard("F-33") && cfg.Compression == "parallelbzip2" && cfg.Encryption == "pgp" {
